@@ -104,7 +104,7 @@ package ro
 //@   ensures [contention-is-dropped|C01] tried(mu) && !trylock(mu) ==> trace(call.NewNotificationNext(v), hook.OnDroppedNotification(ctx, _))
 
 //@ func (*subscriberImpl).ErrorWithContext
-//@   props C01 C02 C03 C06 C14 C07
+//@   props C01 C02 C03 C06 C14 C07 C17
 //@   binds s ctx err
 //@   scope Subscription backpressure ctx destination err mode mu s status
 //@   inline (*subscriberImpl).unsubscribe
@@ -113,11 +113,11 @@ package ro
 //@   ensures [winner-nil-destination|C03] cas_ok(status) && s.destination == nil ==> trace(Subscription.Unsubscribe())
 //@   ensures [loser-is-dropped|C01] !cas_ok(status) ==> trace(call.NewNotificationError(err), hook.OnDroppedNotification(ctx, _), Subscription.Unsubscribe())
 //@   ensures [teardown-outside-producer-lock|C03,C06,C14] notheldat(mu, Subscription.Unsubscribe)
-//@   ensures [terminal-waits-for-lock|C02,C07] !tried(mu) && count(lock.mu) == 1
-//@   ensures [closed-on-return|C06] s.status != 0
+//@   ensures [terminal-waits-for-lock|C02,C07,C17,C08] !tried(mu) && count(lock.mu) == 1
+//@   ensures [closed-on-return|C06,C17] s.status != 0
 
 //@ func (*subscriberImpl).CompleteWithContext
-//@   props C01 C02 C03 C06 C14
+//@   props C01 C02 C03 C06 C14 C17
 //@   binds s ctx
 //@   scope Subscription backpressure ctx destination mode mu s status
 //@   inline (*subscriberImpl).unsubscribe
@@ -126,8 +126,8 @@ package ro
 //@   ensures [winner-nil-destination|C03] cas_ok(status) && s.destination == nil ==> trace(Subscription.Unsubscribe())
 //@   ensures [loser-is-dropped|C01] !cas_ok(status) ==> trace(call.NewNotificationComplete(), hook.OnDroppedNotification(ctx, _), Subscription.Unsubscribe())
 //@   ensures [teardown-outside-producer-lock|C03,C06,C14] notheldat(mu, Subscription.Unsubscribe)
-//@   ensures [terminal-waits-for-lock|C02,C07] !tried(mu) && count(lock.mu) == 1
-//@   ensures [closed-on-return|C06] s.status != 0
+//@   ensures [terminal-waits-for-lock|C02,C07,C17,C08] !tried(mu) && count(lock.mu) == 1
+//@   ensures [closed-on-return|C06,C17] s.status != 0
 
 //@ func (*subscriberImpl).Unsubscribe
 //@   props C03 C06 C14
@@ -245,12 +245,12 @@ package ro
 // ---------------------------------------------------------------------------
 
 //@ func newSubscriberImpl
-//@   props C01 C02 C03 C08 C13 C17 C05
+//@   props C01 C02 C03 C08 C13 C17 C05 C20
 //@   binds mode mu backpressure destination
 //@   scope backpressure complit destination mode mu
 //@   maypanic
 //@   track destination.* call.NewSubscription
-//@   ensures [reuse-only-if-it-synchronises-as-much|C01,C02,C08,C13,C17,C05] result == destination ==> mode == 1 || !is_psubscriberImpl_T_(destination) || asserted(destination).mode == mode || asserted(destination).mode == 0
+//@   ensures [reuse-only-if-it-synchronises-as-much|C01,C02,C08,C13,C17,C05,C20] result == destination ==> mode == 1 || !is_psubscriberImpl_T_(destination) || asserted(destination).mode == mode || asserted(destination).mode == 0
 //@   ensures [fresh-gate-is-open-and-uses-the-given-lock|C01,C02] result != destination ==> result.status == 0 && result.mu == mu && result.backpressure == backpressure && result.destination == destination && result.mode == mode
 //@   ensures [fresh-gate-joins-downstream-teardown|C03] result != destination && is_Subscription(destination) ==> called(destination.Add)
 
